@@ -24,7 +24,8 @@ RULE = ("phase 1: registry of the public computing/writing functions of evo.core
         "(histories): objects derived from a trajectory (deepcopy, both association outputs, split parts of all three splitters "
         "with and without an actual split, merge, DataFrame round trip) get 1-4 drawn mutators (transform, scale, project, "
         "reduce_to_ids, downsample, align), then the source gets some, and after each step the other side is compared bit for "
-        "bit and semantically. Non-trivial = phase-2 history containing project (in-place capable); distinct by SHA-1")
+        "bit and semantically. Non-trivial = phase-2 history containing project (in-place capable); distinct by SHA-1"
+        ' Round-3 additions: results with attached trajectories / without est_name; the merged result is modified and the inputs re-compared.')
 ASSUMPTIONS = ["snapshots cover the private attributes that exist at snapshot time; newly materialised consistent caches are not changes"]
 PLANES = {"xy": Plane.XY, "xz": Plane.XZ, "yz": Plane.YZ}
 
